@@ -159,7 +159,18 @@ def history(Ss, Ts, roots, docs, styles=None):
                 if len(got) != len(exp_objs):
                     out.add("rules-added", "rules-added|count", f"step {step_i} {op}: S has {len(got)} rules, expected {len(exp_objs)}")
                     break
-                bad = [k for k, (a, b) in enumerate(zip(got, exp_objs)) if not (a == b and b == a)]
+                def same_rule(a, b):
+                    # equal rules; a re-rooted path may be reported concrete or not (the statement
+                    # does not say), so paths are compared by their parts and modifiers
+                    if a == b and b == a:
+                        return True
+                    try:
+                        return (a.condition == b.condition and a.cast == b.cast and tuple(a.path.parts) == tuple(b.path.parts)
+                                and a.path.DATUM_TYPE == b.path.DATUM_TYPE and a.path.MULTI_TYPE == b.path.MULTI_TYPE)
+                    except Exception:
+                        return False
+
+                bad = [k for k, (a, b) in enumerate(zip(got, exp_objs)) if not same_rule(a, b)]
                 if bad:
                     k = bad[0]
                     out.add("rules-added", "rules-added|re-rooted-rule", f"step {step_i} {op}: rule {k} is {show(got[k],250)}, expected {show(exp_objs[k],250)}")
